@@ -473,11 +473,7 @@ theorem ackBlock_pres (s : Tcb) (seg : Hdr) : ∃ s' r, ackBlock s seg = .ok (s'
       dsimp only
       split <;> refine ⟨_, _, rfl, fun h => ?_⟩ <;> (exfalso; simp [hst, segmentizing] at h)
     · -- TIME-WAIT
-      rename_i hst
-      simp only [enqueueThen_eq]
-      refine ⟨_, _, rfl, fun h => ?_⟩
-      exfalso
-      simp [state_enqueueBuilt, hst, segmentizing] at h
+      exact ⟨_, _, rfl, SndPres.refl _⟩
 
 theorem synBlock_pres (s : Tcb) (seg : Hdr) : ∃ s' r, synBlock s seg = .ok (s', r) ∧ SndPres s s' := by
   unfold synBlock
